@@ -116,3 +116,78 @@ Example C07_forward_instance :
              = Ok (VSeq [("a", VInt 5); ("x", VBool true)], [true; false; true]).
 Proof. cbv zeta. eexists. split; [vm_compute; reflexivity | vm_compute; reflexivity]. Qed.
 Print Assumptions C07_forward_instance.
+
+(** ------------------------------------------------------------------
+    UPER, the whole property at any nesting depth.  [extends e1 e2 f t1 t2]
+    (Per/UperExtends.v, [ext_gen]) is the relation "t2 is t1 plus extension
+    additions": leaves identical; SEQUENCE/SET roots pairwise related and the
+    additions of t2 = those of t1 (pairwise related) followed by new ones;
+    CHOICE and ENUMERATED likewise; SEQUENCE OF with related elements;
+    references resolved in their own environment.  [extends_strict] adds the
+    two conditions the forward direction needs (unique member names in
+    version 2, DEFAULT values that are their own projection).  [proj] is the
+    version-1 view of a version-2 value: unknown components dropped, an
+    unknown alternative -> VUnknownChoice, an unknown item -> VNone. *)
+From Asn1V Require Import Per.UperRT Per.UperExtends Per.UperExtendsEx.
+
+Theorem C07_uper_forward :
+  forall numeric e1 e2 f t1 t2 v bs,
+    extends_strict numeric e1 e2 f t1 t2 ->
+    enc numeric e2 f t2 v = Ok bs ->
+    forall rest, dec numeric e1 f t1 (bs ++ rest)%list
+                 = Ok (proj numeric e1 e2 f t1 t2 (norm numeric e2 f t2 v), rest).
+Proof. exact uper_forward. Qed.
+Print Assumptions C07_uper_forward.
+
+Theorem C07_uper_backward :
+  forall numeric e1 e2 f t1 t2 v bs,
+    extends numeric e1 e2 f t1 t2 ->
+    enc numeric e1 f t1 v = Ok bs ->
+    forall rest, dec numeric e2 f t2 (bs ++ rest)%list = Ok (norm numeric e1 f t1 v, rest).
+Proof. exact uper_backward. Qed.
+Print Assumptions C07_uper_backward.
+
+Theorem C07_uper_forward_octets :
+  forall numeric e1 e2 fuel t1 t2 v data,
+    extends_strict numeric e1 e2 fuel t1 t2 ->
+    uper_encode numeric fuel e2 t2 v = Ok data ->
+    forall tail, exists n,
+      uper_decode numeric fuel e1 t1 (data ++ tail)%list
+      = Ok (proj numeric e1 e2 fuel t1 t2 (norm numeric e2 fuel t2 v), n) /\
+      (n <= 8 * length data)%nat /\ (8 * length data < n + 8)%nat.
+Proof. exact uper_forward_octets. Qed.
+Print Assumptions C07_uper_forward_octets.
+
+Theorem C07_uper_backward_octets :
+  forall numeric e1 e2 fuel t1 t2 v data,
+    extends numeric e1 e2 fuel t1 t2 ->
+    uper_encode numeric fuel e1 t1 v = Ok data ->
+    forall tail, exists n,
+      uper_decode numeric fuel e2 t2 (data ++ tail)%list = Ok (norm numeric e1 fuel t1 v, n) /\
+      (n <= 8 * length data)%nat /\ (8 * length data < n + 8)%nat.
+Proof. exact uper_backward_octets. Qed.
+Print Assumptions C07_uper_backward_octets.
+
+(** Non-vacuity: a module pair extended at four nodes at once (ENUMERATED item,
+    inner SEQUENCE addition, CHOICE alternative, outer SEQUENCE additions incl.
+    a group), through references and a SEQUENCE OF, is in the relation. *)
+Example C07_extends_inhabited : extends_strict false env1 env2 8 top1 top2.
+Proof. exact top2_extends_top1. Qed.
+Print Assumptions C07_extends_inhabited.
+
+(** ------------------------------------------------------------------
+    Aligned PER: one extensible SEQUENCE/SET node in both directions and a
+    CHOICE alternative known to both versions, positional form ([ERT]). *)
+From Asn1V Require Import Per.PerImpl Per.PerPrim Per.PerRT Per.PerExt.
+
+Theorem C07_per_sequence_forward : ltac:(let T := type of per_seq_forward in exact T).
+Proof. exact per_seq_forward. Qed.
+Print Assumptions C07_per_sequence_forward.
+
+Theorem C07_per_sequence_backward : ltac:(let T := type of per_seq_backward in exact T).
+Proof. exact per_seq_backward. Qed.
+Print Assumptions C07_per_sequence_backward.
+
+Theorem C07_per_choice_known_alternative : ltac:(let T := type of per_choice_known_alternative in exact T).
+Proof. exact per_choice_known_alternative. Qed.
+Print Assumptions C07_per_choice_known_alternative.
